@@ -26,6 +26,7 @@ func recC03() *vkit.Recorder {
 }
 
 func runLoop(rec *vkit.Recorder, test string, c *Case, prop string, handOver bool) string {
+	vkit.Begin(rec.Prop, test, c)
 	res := RunCase(c, prop, handOver)
 	cls := append([]string{}, res.Classes...)
 	cls = append(cls, fmt.Sprintf("settle-rounds<=%d", bucket(res.Rounds)))
